@@ -14,6 +14,7 @@ from ..program import AnalysisError, FunctionInfo, fn_nodes, norm
 from ..cfg import cfg_of
 from ..decide import truth_table
 from ..effects import Effects
+from .common import inconclusive_on_error as _ioe
 from .common import resolve_all, can_reach_exit, const_value, is_const, succ_by_label
 
 REG = "rfc7519.registry:JWTClaimsRegistry"
@@ -524,6 +525,7 @@ def _claim_probes():
     return out
 
 
+@_ioe
 def _claims_folded(ctx) -> Optional[List[Tuple[str, str]]]:
     """Decide R10.1 - R10.6 and R10.8 by partial evaluation: JWTClaimsRegistry(now, leeway, **request).validate(claims) is folded on a grid of
     single-claim probes (the boundaries now-leeway-1, now-leeway+1, now+leeway, now+leeway+1, floats, non-numbers; every request option and
